@@ -60,8 +60,22 @@ def gen_cases(ctx, n):
               "analytic_dep_numeric", "higher_order", "mixed_nonlinear", "offset_in_group", "isolated", "chain_to_nonlinear", "chain_from_offset", "chain_to_nonlinear"]
     i = 0
     while len(out) < n:
-        kind = ["perm", "perm", "rename", "formulation"][i % 4]
+        kind = ["perm", "perm", "rename", "formulation", "perm", "ivorder", "rename", "formulation"][i % 8]
         i += 1
+        if kind == "ivorder":
+            # the same higher-order entry with its initial values written in another order (and, in the ODE formulations, derivative first)
+            g = systems.gen_system(rng, shape=rng.choice(["second_order_real", "higher_order", "higher_order_driven"]), with_params=rng.choice(["none", "all"]))
+            ind = g["indict"]
+            twin = json.loads(json.dumps(ind))
+            changed = False
+            for d in twin["dynamics"]:
+                if len(d.get("initial_values", {})) > 1:
+                    ks = list(d["initial_values"])
+                    d["initial_values"] = {k: d["initial_values"][k] for k in reversed(ks)}
+                    changed = True
+            if changed:
+                out.append({"indict": ind, "twin": twin, "varmap": {}, "kind": "ivorder", "shape": g["shape"], "pt_seed": rng.randrange(10 ** 9)})
+            continue
         if kind == "formulation":
             f = rng.choice(FORMULATIONS)
             extra = rng.choice([[], [{"expression": "V_m' = -V_m/tau_m + g", "initial_value": "0"}], [{"expression": "w' = -w**3 + g", "initial_value": "1"}]])
